@@ -111,3 +111,20 @@ brk("c09-dht-offset-not-advanced", ["C09"],
     [("jpeg/baseline/decoder.go", "		offset++\n\n		// Read the number of codes for each length\n		table := &standard.HuffmanTable{}\n		totalCodes := 0\n		for i := 0; i < 16; i++ {\n			if offset >= len(data) {\n				return standard.ErrInvalidDHT\n			}\n			table.Bits[i] = int(data[offset])\n			totalCodes += table.Bits[i]\n			offset++\n		}",
       "		// Read the number of codes for each length\n		table := &standard.HuffmanTable{}\n		totalCodes := 0\n		for i := 0; i < 16; i++ {\n			if offset+1+i >= len(data) {\n				return standard.ErrInvalidDHT\n			}\n			table.Bits[i] = int(data[offset+1+i])\n			totalCodes += table.Bits[i]\n		}")],
     "PROGRESS", "parseDHT")
+# ---------------------------------------------------------------- C04 / C19
+brk("c04-decoder-rlcp-loops-swapped", ["C04", "C19"],
+    [("jpeg2000/t2/packet_decoder.go", "func (pd *PacketDecoder) decodeRLCP() ([]Packet, error) {\n	for res := 0; res < pd.numResolutions; res++ {\n		for layer := 0; layer < pd.numLayers; layer++ {",
+      "func (pd *PacketDecoder) decodeRLCP() ([]Packet, error) {\n	for layer := 0; layer < pd.numLayers; layer++ {\n		for res := 0; res < pd.numResolutions; res++ {")],
+    "EXHAUST-PROG", "RLCP")
+brk("c04-encoder-pcrl-dispatched-to-cprl", ["C04"],
+    [("jpeg2000/t2/packet_encoder.go", "	case ProgressionPCRL:\n		return pe.encodePCRL(maxLayers)", "	case ProgressionPCRL:\n		return pe.encodeCPRL(maxLayers)")],
+    "EXHAUST-PROG", "PCRL")
+brk("c04-decoder-case-deleted", ["C04"],
+    [("jpeg2000/t2/packet_decoder.go", "	case ProgressionPCRL:\n		return pd.decodeComplete(pd.decodePCRL())\n", "")],
+    "EXHAUST-PROG", "")
+brk("c19-isot-truncated-to-byte", ["C19"],
+    [("jpeg2000/encoder.go", "	_ = binary.Write(buf, binary.BigEndian, uint16(tileIdx)) // Isot", "	_ = binary.Write(buf, binary.BigEndian, uint16(tileIdx&0xFF)) // Isot")],
+    "FLOWS-TILEIDX", "writeTile")
+benign("c04-benign-rename-loop-variables", ["C04"],
+    [("jpeg2000/t2/packet_decoder.go", "func (pd *PacketDecoder) decodeRLCP() ([]Packet, error) {\n	for res := 0; res < pd.numResolutions; res++ {\n		for layer := 0; layer < pd.numLayers; layer++ {",
+      "func (pd *PacketDecoder) decodeRLCP() ([]Packet, error) {\n	nRes, nLay := pd.numResolutions, pd.numLayers\n	for res := 0; res < nRes; res++ {\n		for layer := 0; layer < nLay; layer++ {")])
